@@ -11,9 +11,12 @@ open YV YV.X YV.XP YV.XM YV.XPS YV.XC
 /-- Full statement of the property (kept visible):  for every supported path `p`, every tree `t`
     without injected fault, `run (program p)` = the specification's requests and value.
     What is proved is `C02_nav_partial`: the same statement for paths whose predicate operands are
-    literals, numbers and predicate-free paths (absolute, current()-rooted, '..'-rooted) and whose
-    predicates use pairwise different keys per step (`GoodPath`).  Missing: function-result operands
-    (their value is C01's scalar evaluation; the correspondence stream c02 covers them by testing).
+    literals, numbers, predicate-free paths (absolute, current()-rooted, '..'-rooted) and function results —
+    any closed, arity-correct expression without '=' over the functions of C01_machine_is_xpath: the scalar
+    sub-machine runs inside the predicate (`exec_scalar`) and the key receives the string-value the XPath 1.0
+    semantics gives the operand (`evalM_spec`) — and whose predicates use pairwise different keys per step
+    (`GoodPath`).  Missing: operands calling round() / substring() (see C01) or containing '=' (inside a
+    predicate the '=' instruction records a key).
     Two predicates with the same key on one step are outside what the property fixes. -/
 theorem C02_nav_partial (t : Tree) (hf : NoFault t) (hv : ValidTree t) (p : PathE) (hg : GoodPath p) :
     run true t (program (.path p)) =
@@ -56,11 +59,23 @@ example : GoodPath exPath ∧ NoFault exTree ∧ ValidTree exTree := by
   refine ⟨?_, rfl, fun p => by simp [exTree]⟩
   intro st hst
   simp [exPath] at hst
-  rcases hst with h | h | h <;> subst h <;> simp [GoodStep, GoodPreds, simpleOp]
+  rcases hst with h | h | h <;> subst h <;> simp [GoodStep, GoodPreds, okOp]
 
 example : (run true exTree (program (.path exPath))).trace =
     ["Navigate(ROOT/a/b/../x)", "GetValue(ROOT/a/b/../x)",
      "Navigate(ROOT/a/b[k1=v][k2=ROOT/a/b/../x]/c)", "GetValue(ROOT/a/b[k1=v][k2=ROOT/a/b/../x]/c)"] := by
   decide
+
+/-- non-vacuity for function-result operands: `/a[k=concat('x', string(1 + 2))]` addresses `a[k=x3]` -/
+def exFn : PathE :=
+  .basic .abs [.named "a".toList [("k".toList,
+    .scalar (.call .concat [.lit "x".toList, .call .string [.bin .add (.num SF.one) (.num (SF.ofNat 2))]]))]]
+
+example : GoodPath exFn := by
+  intro st hst
+  simp [exFn] at hst
+  subst hst
+  simp [GoodStep, GoodPreds, okOp, GoodScalar, WellFormed, WellFormedList, XS.PureX, XS.PureXs, XS.pureFn,
+    ClosedNoEq, ClosedNoEqs, Fn.sig]
 
 end YV.C02
